@@ -15,7 +15,7 @@ A broken proof or correspondence is never by itself reported with a bogus input:
 (and by the plugin's optional search()) are the replay; if there are none the VIOLATION line ends with
 `no-failing-input-found` and the replay names what no longer checks.
 """
-import argparse, collections, fcntl, importlib, json, os, random, re, shutil, subprocess, sys, tempfile, time, traceback
+import argparse, signal, collections, fcntl, importlib, json, os, random, re, shutil, subprocess, sys, tempfile, time, traceback
 
 VERIF = os.path.dirname(os.path.dirname(os.path.abspath(__file__)))
 LEAN_DIR = os.path.join(VERIF, 'lean', 'TD')
@@ -106,6 +106,13 @@ def strip_lean_comments(src: str) -> str:
     return ''.join(out)
 
 
+class ImplHang(BaseException):
+    """Raised by the watchdog inside an implementation call that has not returned (BaseException: not swallowed by the code under test)."""
+    def __init__(self, msg, where):
+        super().__init__(msg)
+        self.where = where
+
+
 class Ctx:
     def __init__(self, prop, tier, seed):
         self.prop, self.tier, self.seed = prop, tier, seed
@@ -122,6 +129,44 @@ class Ctx:
         self.proof = {'obligations': 0, 'discharged': 0, 'theorems': [], 'broken': []}
         self.extra = {}
         self.source_changed = False
+        self._tick = time.time()
+
+    # ---- watchdog: an implementation call that never returns is a broken correspondence, not a stuck check
+    def start_watchdog(self, limit=None, period=20):
+        limit = limit or int(os.environ.get('TDVERIF_HANG_SECONDS', '300'))
+        src = os.path.abspath(os.path.join(REPO, 'src')) + os.sep
+        state = {'in_impl_since': None}
+
+        def on_alarm(signum, frame):
+            f, inside = frame, False
+            while f is not None:
+                if os.path.abspath(f.f_code.co_filename).startswith(src):
+                    inside = True
+                    break
+                f = f.f_back
+            now = time.time()
+            if not inside:
+                state['in_impl_since'] = None
+                return
+            if state['in_impl_since'] is None or state['in_impl_since'] < self._tick:
+                state['in_impl_since'] = max(self._tick, now - period)
+            if now - state['in_impl_since'] > limit:
+                state['in_impl_since'] = None
+                self._tick = now
+                where = {}
+                f = frame
+                while f is not None:
+                    if os.sep + 'props' + os.sep in f.f_code.co_filename:
+                        where = {k: repr(v)[:1500] for k, v in list(f.f_locals.items())[:30]}
+                        break
+                    f = f.f_back
+                raise ImplHang(f'no return from the implementation for {limit} s', where)
+
+        signal.signal(signal.SIGALRM, on_alarm)
+        signal.setitimer(signal.ITIMER_REAL, period, period)
+
+    def stop_watchdog(self):
+        signal.setitimer(signal.ITIMER_REAL, 0, 0)
 
     # ---- budgets
     def n(self, quick, thorough):
@@ -160,6 +205,7 @@ class Ctx:
 
     # ---- recording
     def count(self, key, n=1):
+        self._tick = time.time()
         self.stats[key] += n
 
     def nontriv(self, key):
@@ -172,6 +218,7 @@ class Ctx:
     def corr(self, stream, case, impl, model):
         """Record one comparison of implementation vs model output (canonical strings or JSON-able)."""
         self.streams[stream] += 1
+        self._tick = time.time()
         if impl != model:
             if len(self.disagreements) < 200:
                 self.disagreements.append({'stream': stream, 'case': case, 'impl': impl, 'model': model})
@@ -182,6 +229,7 @@ class Ctx:
     def fail(self, case, detail, finding=None, stream='oracle'):
         """Record a property-oracle failure observed on the implementation alone."""
         self.stats['oracle_failures'] += 1
+        self._tick = time.time()
         if len(self.failures) < 200 or finding is None:
             self.failures.append({'stream': stream, 'case': case, 'detail': detail, 'finding': finding})
 
@@ -377,10 +425,17 @@ def main(argv=None):
         proofs_ok = check_proofs(ctx, getattr(plugin, 'EXTRA_LEAN_TARGETS', ()))
         driver_ok = os.path.exists(ctx.driver_path()) or os.path.exists(os.path.join(LEAN_DIR, 'Drivers', f'{prop}.lean'))
         ctx.model_available = proofs_ok or os.path.exists(ctx.driver_path())
+        ctx.start_watchdog()
         try:
             plugin.run(ctx)
         except (InfraError, subprocess.TimeoutExpired, MemoryError):
             raise
+        except ImplHang as exc:
+            ctx.stats['disagreements'] += 1
+            ctx.disagreements.append({'stream': 'implementation-hung-in-adapter', 'case': exc.where,
+                                      'impl': f'ImplHang: {exc}', 'model': 'every modelled operation terminates',
+                                      'traceback': traceback.format_exc()[-3000:]})
+            ctx.note('the run was cut short: a call into the implementation did not return')
         except Exception as exc:
             # An exception that originates inside the implementation under test (innermost frames in REPO/src) and that the
             # plugin's adapter did not expect: the implementation no longer behaves as the model/adapter describe.
@@ -395,7 +450,11 @@ def main(argv=None):
             ctx.note('the run was cut short by an unexpected exception raised inside the implementation')
         broken = (not proofs_ok) or bool(ctx.disagreements)
         if broken and not [f for f in ctx.failures if f['finding'] is None] and hasattr(plugin, 'search'):
-            plugin.search(ctx)
+            try:
+                plugin.search(ctx)
+            except ImplHang as exc:
+                ctx.note(f'the failing-input search was cut short as well: {exc}')
+        ctx.stop_watchdog()
         known = load_known(prop)
         unlisted = [f for f in ctx.failures if f['finding'] is None or f['finding'] not in known]
         listed = collections.Counter(f['finding'] for f in ctx.failures if f['finding'] in known)
